@@ -110,6 +110,23 @@ class Mini:
             if not broke:
                 for s in st.orelse:
                     self.stmt(s)
+        elif isinstance(st, ast.While):
+            broke = False
+            while self.truth(self.expr(st.test)):
+                self.fuel -= 1
+                if self.fuel < 0:
+                    raise Unsupported("evaluation budget exhausted")
+                try:
+                    for s in st.body:
+                        self.stmt(s)
+                except _Break:
+                    broke = True
+                    break
+                except _Continue:
+                    continue
+            if not broke:
+                for s in st.orelse:
+                    self.stmt(s)
         elif isinstance(st, ast.Delete):
             for t in st.targets:
                 if isinstance(t, ast.Subscript):
@@ -347,8 +364,11 @@ class Mini:
                     if not (left is None or right is None or isinstance(left, bool) or isinstance(right, bool) or (isinstance(left, SimpleNamespace) and isinstance(right, SimpleNamespace))):
                         raise Unsupported("identity of non-singletons")
                     ok = (left is right) if isinstance(op, ast.Is) else (left is not right)
-                elif (isinstance(left, int) and isinstance(right, int)) or (isinstance(left, tuple) and isinstance(right, tuple) and all(isinstance(x, int) for x in left + right)):
-                    ok = {ast.Lt: left < right, ast.LtE: left <= right, ast.Gt: left > right, ast.GtE: left >= right}[type(op)]
+                elif (isinstance(left, int) and isinstance(right, int)) or (isinstance(left, tuple) and isinstance(right, tuple) and all(isinstance(x, (int, str)) for x in left + right)):
+                    try:
+                        ok = {ast.Lt: lambda: left < right, ast.LtE: lambda: left <= right, ast.Gt: lambda: left > right, ast.GtE: lambda: left >= right}[type(op)]()
+                    except TypeError:
+                        raise Unsupported("ordering of tuples with mixed element types")
                 else:
                     raise Unsupported("ordering of non-integers")
                 if not ok:
